@@ -2,7 +2,8 @@
    model (Edit/EdSpec.v) run alongside.
 
    c04 <proto> <amode> <max> B <type> <code> <mid> { T <bytes> | O <num> <bytes> | D <bytes> }*
-                             E { I <num> <bytes> | U <num> <bytes> | R <num> | K <bytes> }*
+                             E { I <num> <bytes> | U <num> <bytes> | R <num> | K <bytes>
+                               | A <num> <bytes> | D <bytes> }*        (A, D: coap_add_option, coap_add_data)
                              [ X <mid'> <smax> <bytes> <filter> ]
    c04 <proto> <amode> <max> W <bytes>+
                              E { ... }* [ X ... ]
@@ -36,13 +37,19 @@ let rec build_ops toks =
   | "D" :: b :: tl -> OpData (bytes_of_tok b) :: build_ops tl
   | _ -> failwith "bad build op"
 
+(* an item of the edit list: an edit proper, or a builder call made in between
+   (A <num> <bytes> = coap_add_option, D <bytes> = coap_add_data) *)
+type item = Ed of ed_op | Bo of bop
+
 let rec edit_ops toks =
   match toks with
   | [] -> []
-  | "I" :: n :: b :: tl -> EdInsert (zi n, bytes_of_tok b) :: edit_ops tl
-  | "U" :: n :: b :: tl -> EdUpdate (zi n, bytes_of_tok b) :: edit_ops tl
-  | "R" :: n :: tl -> EdRemove (zi n) :: edit_ops tl
-  | "K" :: b :: tl -> EdToken (bytes_of_tok b) :: edit_ops tl
+  | "I" :: n :: b :: tl -> Ed (EdInsert (zi n, bytes_of_tok b)) :: edit_ops tl
+  | "U" :: n :: b :: tl -> Ed (EdUpdate (zi n, bytes_of_tok b)) :: edit_ops tl
+  | "R" :: n :: tl -> Ed (EdRemove (zi n)) :: edit_ops tl
+  | "K" :: b :: tl -> Ed (EdToken (bytes_of_tok b)) :: edit_ops tl
+  | "A" :: n :: b :: tl -> Bo (OpOpt (zi n, bytes_of_tok b)) :: edit_ops tl
+  | "D" :: b :: tl -> Bo (OpData (bytes_of_tok b)) :: edit_ops tl
   | _ -> failwith "bad edit op"
 
 let cur_proto = ref UDP
@@ -127,16 +134,17 @@ let c04_gen cast8 toks =
                if not !stuck then begin
                  let rb =
                    match e with
-                   | EdToken t when cast8 -> ed_b_token_cast8 !p t
-                   | EdToken t when !show_hdr ->
+                   | Ed (EdToken t) when cast8 -> ed_b_token_cast8 !p t
+                   | Ed (EdToken t) when !show_hdr ->
                        (match ed_b_token_hdr UDP !cur_hdr !p t with
                         | None -> None
                         | Some (r, h') -> cur_hdr := h'; Some r)
-                   | _ -> ed_b_apply !p e in
+                   | Ed e -> ed_b_apply !p e
+                   | Bo o -> ed_b_build_op !p o in
                  match rb with
                  | None -> stuck := true; Buffer.add_string b " | STUCK"
                  | Some (r, p1) ->
-                     let rq, q1 = ed_apply !q e in
+                     let rq, q1 = (match e with Ed e -> ed_apply !q e | Bo o -> apply_op !q o) in
                      p := p1; q := q1;
                      Buffer.add_string b (Printf.sprintf " | %d %s" (if r then 1 else 0) (dump_b p1));
                      if r <> rq || not (same_as_spec p1 q1) then
